@@ -1242,6 +1242,10 @@ func (vc *VC) execInstr(fr *Frame, st *State, reach string, instr ssa.Instructio
 		fr.regs[x] = Val{T: x.Type(), S: ref}
 	case *ssa.MakeChan:
 		ref := vc.allocRef(st, "mkchan")
+		// the buffer size is a fact about the channel (chancap(c) in contracts): the order in which a consumer sees
+		// values sent on DIFFERENT channels is the send order only when the channels are unbuffered
+		vc.useChanCap()
+		vc.assume("(= (chan_cap " + ref + ") " + vc.valTerm(vc.operand(fr, x.Size)) + ")")
 		fr.regs[x] = Val{T: x.Type(), S: ref}
 	case *ssa.MakeClosure:
 		fn := x.Fn.(*ssa.Function)
